@@ -7,6 +7,7 @@ FRAME = "crates/bytecode/src/frame.rs"
 COMPILER = "crates/bytecode/src/compiler.rs"
 NUMBER = "crates/runtime/src/types/number.rs"
 VM = "crates/runtime/src/vm.rs"
+RANGE = "crates/runtime/src/types/range.rs"
 
 MUTANTS = [
     # ---- V-frame
@@ -63,4 +64,15 @@ MUTANTS = [
          old="            if now >= self.deadline {\n                true", new="            if now >= self.deadline && self.interval_instructions > 0 {\n                true", expect="V-vmproto::ExecutionTimeout::check_for_timeout"),
     dict(name="vm_quiet_rename_frame_base", kind="quiet", prop="C07", units=["V-vmproto"], file=VM,
          old="        let frame_base = self.next_register();\n        self.registers.push(KValue::Null); // Instance register", new="        let base_of_frame = self.next_register();\n        let frame_base = base_of_frame;\n        self.registers.push(KValue::Null); // Instance register", expect=""),
+    # ---- V-range
+    dict(name="range_pop_back_off_by_one", kind="break", prop="C13", units=["V-range"], file=RANGE,
+         old="let result = if *inclusive { *end } else { *end - 1 } as i64;", new="let result = if *inclusive { *end } else { *end } as i64;", expect="V-range::KRange::pop_back"),
+    dict(name="range_pop_front_inclusive_end_twice", kind="break", prop="C13", units=["V-range"], file=RANGE,
+         old="                        *inclusive = false; // Allow iteration to stop\n                        Some(result)\n                    } else {\n                        None\n                    }\n                }\n                Greater => None,\n            },\n            BoundedLarge(r) => {\n                let r = Ptr::make_mut(r);\n                match r.start.cmp(&r.end) {\n                    Less => {\n                        let result = r.start;", new="                        Some(result)\n                    } else {\n                        None\n                    }\n                }\n                Greater => None,\n            },\n            BoundedLarge(r) => {\n                let r = Ptr::make_mut(r);\n                match r.start.cmp(&r.end) {\n                    Less => {\n                        let result = r.start;", expect="V-range::KRange::pop_front"),
+    dict(name="range_indices_unclamped_end", kind="break", prop="C01", units=["V-range"], file=RANGE,
+         old="let end = range.end.clamp(start, max_index);", new="let end = range.end.max(start);", expect="V-range::KRange::indices"),
+    dict(name="range_inclusive_overflow_again", kind="break", prop="C06", units=["V-range"], file=RANGE,
+         old="end.saturating_add(1)", new="end + 1", expect="V-range::KRange::as_bounded_range"),
+    dict(name="range_large_repr_differs", kind="break", prop="C13", units=["V-range"], file=RANGE,
+         old="                        let result = if r.inclusive { r.end } else { r.end - 1 };\n                        r.end -= 1;", new="                        let result = if r.inclusive { r.end } else { r.end - 1 };\n                        r.end -= if r.inclusive { 2 } else { 1 };", expect="V-range::KRange::pop_back"),
 ]
